@@ -1,6 +1,7 @@
 import GB.C15.ProofsPoll
 import GB.C15.ProofsWake
 import GB.C15.ProofsExtra
+import GB.C15.ProofsOnce
 import GB.Generated.Facts
 /-
   C15 — description updates are delivered exactly when the target's contract changes.
@@ -532,3 +533,78 @@ example :
       [[.update 1], [], [.reportError .unavailable], [], [.reportError .other], [.update 2], [.update 1]] ∧
     (finalState (fun b => b) (RState.init Bytes) exHistory).methodPriority = [.v1alpha, .v1] := by
   decide
+
+/-! ## round 5 — (3) `sync.Once` as an LTS, used as a lemma -/
+
+/-- **sync.Once, any number of callers** (statement-level LTS of `Once.Do`/`doSlow`: fast-path load,
+    mutex, second check, `f()`, deferred `done.Store(1)`, deferred `Unlock`). In every reachable state:
+    `f` has been entered at most once and returned at most as often as entered; at most one caller is
+    inside the mutex; EVERY caller that has returned finds `f` executed exactly once AND completed
+    (nobody returns before the winner finished `f`); and while a caller is inside `Do` some step is
+    enabled (no deadlock). -/
+theorem C15_once_exactly_one (s : Once.S) (h : GB.LTS.Reachable Once.step Once.S.init s) :
+    s.execs ≤ 1 ∧ s.completed ≤ s.execs ∧
+    (∀ i j, Once.crit (s.pc i) = true → Once.crit (s.pc j) = true → i = j) ∧
+    (∀ i, s.pc i = .returned → s.done = true ∧ s.execs = 1 ∧ s.completed = 1) ∧
+    (∀ i, s.pc i ≠ .idle → s.pc i ≠ .returned → ∃ l s', Once.step s l = some s') := by
+  have hi := Once.inv_reachable s h
+  have hcount : s.execs ≤ 1 ∧ s.completed ≤ s.execs := by
+    cases hd : s.done with
+    | true => have := hi.hd hd; omega
+    | false =>
+      by_cases hex : ∀ i, s.pc i ≠ .running ∧ s.pc i ≠ .storing
+      · have := hi.hn hd hex; omega
+      · have : ∃ i, s.pc i = .running ∨ s.pc i = .storing := by
+          apply Classical.byContradiction
+          intro hne
+          apply hex
+          intro i
+          constructor <;> intro hp <;> exact hne ⟨i, by simp [hp]⟩
+        obtain ⟨i, hr | hr⟩ := this
+        · have := hi.hrun i hr; omega
+        · have := hi.hst i hr; omega
+  refine ⟨hcount.1, hcount.2, ?_, ?_, ?_⟩
+  · intro i j hci hcj
+    have h1 := hi.hc i hci
+    have h2 := hi.hc j hcj
+    rw [h1] at h2
+    exact (Option.some.inj h2)
+  · intro i hr
+    have hd := hi.hr i hr
+    exact ⟨hd, hi.hd hd⟩
+  · intro i h1 h2
+    exact Once.progress s hi i h1 h2
+
+/-- **The abstraction the wake-up LTS makes of `sync.OnceFunc` is a refinement, not an assumption.**
+    Each step of the real Once is invisible or is exactly one step of the per-generation fragment
+    `fire` (test-and-set; a LOSER's `fire` only once the channel close has completed) / `closeCh`
+    (`f` returned) — a forward simulation from the initial states on. -/
+theorem C15_once_abstraction :
+    Once.R Once.S.init { pc := fun _ => .loaded, fired := false, closed := false } ∧
+    ∀ (s s' : Once.S) (a : Once.A) (l : Once.L), GB.LTS.Reachable Once.step Once.S.init s → Once.R s a →
+      Once.step s l = some s' → Once.R s' a ∨ ∃ l' a', Once.astep a l' = some a' ∧ Once.R s' a' :=
+  ⟨Once.R_init, fun s s' a l h hr hs => Once.refines s s' a l (Once.inv_reachable s h) hr hs⟩
+
+/-- **`ResolveNow` returns after the signal is written.** `stepO` is the wake-up LTS with the guard
+    proved above (a caller that lost the once waits for the winner's `close(ch)`). Its reachable states
+    are reachable states of `step` (so `C15_no_lost_wakeup`, `C15_close`, … apply verbatim), the
+    poller's and the winner's steps are the same (so do the progress theorems), and additionally every
+    call that has returned has its generation's channel CLOSED — hence the poller, which cannot re-arm
+    before that close, is woken by it or was already past it. -/
+theorem C15_resolve_now_returns_after_signal (manual : Bool) (s : W)
+    (h : GB.LTS.Reachable stepO (W.init manual) s) :
+    GB.LTS.Reachable step (W.init manual) s ∧
+    (∀ l, isProtocol l = true → stepO s l = step s l) ∧
+    (∀ i, (s.callers i).pc = .finished → (s.callers i).gen ∈ s.closed ∧
+      ((s.callers i).served = true ∨ Coming s ∨ s.closer ≠ .idle)) := by
+  have hr := reachableO_reachable manual s h
+  refine ⟨hr, fun l hl => stepO_protocol s l hl, fun i hf => ⟨retClosed_reachable manual s h i hf, ?_⟩⟩
+  exact C15_no_lost_wakeup manual s hr i hf
+
+/-- The sharper guard matters: in `step` a loser can return while the channel is still open; `stepO` refuses that step. -/
+example :
+    ((GB.LTS.run step (W.init true) [.load 0, .load 1, .fire 0, .fire 1]).map
+      (fun s => ((s.callers 1).pc, s.closed))) = some (.finished, []) ∧
+    (GB.LTS.run stepO (W.init true) [.load 0, .load 1, .fire 0, .fire 1]).isNone = true ∧
+    ((GB.LTS.run stepO (W.init true) [.load 0, .load 1, .fire 0, .closeCh 0, .fire 1]).map
+      (fun s => ((s.callers 1).pc, s.closed))) = some (.finished, [0]) := by decide
